@@ -118,7 +118,14 @@ class World:
         self.mp_synced = None
         orig_on_mempool = notifications.on_mempool
 
+        # C20's "a mempool refresh was received at h": the height a refresh is handed over at must be the
+        # height its snapshot of the daemon's mempool was taken at (the refresh loop's own guard: it lists,
+        # then reads the height again and starts over unless it is unchanged)
+        self.mp_height_mismatch = []
+
         async def on_mempool(touched, height):
+            if daemon.listing_height is not None and height != daemon.listing_height:
+                self.mp_height_mismatch.append((height, daemon.listing_height))
             await orig_on_mempool(touched, height)
             self.mp_synced = (daemon.listing_version, height)
         notifications.on_mempool = on_mempool
